@@ -38,7 +38,14 @@ def prove_sign(c, facts, pc, hyps, t, op, hints, signfacts, cert_timeout=20):
     t = T.lift(t)
     if _smt_sign(facts, pc, t, op, 1500):
         return 'z3'
-    cands = [(T.lift(q), None) for q in hints] + [(-T.lift(q), None) for q in hints]
+    saved0 = T._CTX[0]
+    T.set_ctx(c)
+    try:
+        hv = [T.eval_hint(c, q) for q in hints]
+    finally:
+        T.set_ctx(saved0)
+    hv = [q for q in hv if q is not None]
+    cands = [(q, None) for q in hv] + [(-q, None) for q in hv]
     cands = known_signs(signfacts) + cands
     saved = T._CTX[0]
     for q, qop in cands:
@@ -47,6 +54,8 @@ def prove_sign(c, facts, pc, hyps, t, op, hints, signfacts, cert_timeout=20):
         p = T.eq_poly(t, q)
         if p is None:
             continue
+        if q.d is not None and not cert.nonzero_from_facts(q.d, list(facts) + list(pc), 2000):
+            continue          # closed forms are only usable where their denominators are non-zero
         T.set_ctx(c)
         try:
             if T._quick_differs(c, p):
